@@ -348,7 +348,11 @@ def parse_cuts(s):
 
 def check_chains(total, res, dump):
     chains = {}
+    ch0 = None
     for part in dump.split()[1:]:
+        if part.startswith("ch0="):
+            ch0 = part[4:]
+            continue
         f = part.split(":")
         if len(f) < 7 or f[1].startswith("err"):
             return ("P5.i", f"dump of {f[0]} failed: {part[:120]}")
@@ -356,6 +360,8 @@ def check_chains(total, res, dump):
         if kv["gapfree"] != "true" or kv["valid"] != "true" or kv["linked"] != "true":
             return ("P5.i", f"{f[0]}: gapfree={kv['gapfree']} valid={kv['valid']} (one public key for the whole chain) linked={kv['linked']}")
         chains[f[0]] = kv["sigs"].split(".") if kv["sigs"] else []
+        if ch0 and kv.get("ch", "-") != "-" and kv["ch"] != f"{ch0}/{ch0}":
+            return ("P5.i", f"{f[0]}: chain hash served / chain hash of the group it holds = {kv['ch']}, the chain's is {ch0}")
     names = sorted(chains)
     for a in names:
         for b in names:
